@@ -9,7 +9,7 @@ from vlib.engine import Outcome
 PROPERTY = 'C18'
 RULE = ('(tcpcl) two-endpoint histories as in C01/C09 (sends, pops, terminate, schedules, back-pressure) with user '
         'queries interleaved at every step: send_bundle_get_queue, recv_bundle_get_queue, recv_bundle_pop_data (valid, '
-        'repeated, unknown id), is_sess_idle, get_session_parameters, get_session_state, is_secure, Agent.get_connections. '
+        'repeated, unknown id), recv_bundle_pop_file into a path that cannot be created, is_sess_idle, get_session_parameters, get_session_state, is_secure, Agent.get_connections. '
         '(refusal) a scripted peer refuses one of the endpoint own transfers while it is queued, in the middle of its segments, or '
         'after its last segment and before the final ACK, then acknowledges the rest and optionally the refused one too (all '
         '40 combinations enumerated): exactly one finished signal per transfer, empty send queue and idle afterwards.  '
@@ -44,7 +44,7 @@ def strategy(tier):
     from vlib import tcpcl_machine as tm
     def densify(case):
         # a query after every scheduler run, so that many land while a transfer is mid-flight
-        names = ['is_sess_idle', 'send_bundle_get_queue', 'recv_bundle_get_queue', 'is_sess_idle']
+        names = ['is_sess_idle', 'send_bundle_get_queue', 'recv_bundle_get_queue', 'pop_file_bad']
         ops = []
         for idx, op in enumerate(case['ops']):
             ops.append(op)
@@ -72,6 +72,9 @@ def pinned_cases():
            ['query', 'B', 'recv_bundle_get_queue'], ['pop', 'B'], ['query', 'B', 'pop_twice'], ['query', 'B', 'pop_unknown'],
            ['query', 'A', 'get_connections']]
     yield 'queries', {'kind': 'tcpcl', 'cfg': cfg, 'ops': ops}
+    yield 'pop-to-unwritable-file', {'kind': 'tcpcl', 'cfg': cfg,
+                                     'ops': [['estab'], ['send', 'A', 11, 1], ['run', [0, 1] * 30], ['query', 'B', 'recv_bundle_get_queue'],
+                                             ['query', 'B', 'pop_file_bad'], ['pop', 'B']]}
 
 
 def judge_tcpcl(trace, out):
